@@ -1,6 +1,7 @@
 package main
 
 import (
+	"sort"
 	"fmt"
 	"go/token"
 	"go/types"
@@ -126,6 +127,8 @@ type xbuilder struct {
 	memo     map[ssa.Value]*X
 	env      map[ssa.Value]*X // parameter bindings while expanding a trivial function in place
 	inlDepth int
+	// merges of the stores reaching a load of a locally built struct's field, by (struct, field, store set)
+	fieldMerge map[string]*X
 }
 
 func newXBuilder(c *Ctx) *xbuilder {
@@ -455,6 +458,9 @@ func (b *xbuilder) load(u *ssa.UnOp, sub func(ssa.Value) *X) *X {
 					if r.Val == ssa.Value(al) {
 						handed = true // the pointer itself is stored somewhere
 					}
+					if r.Addr == ssa.Value(al) {
+						handed = true // the struct is (also) assigned as a whole: not a field-by-field built object
+					}
 				case *ssa.MakeClosure, *ssa.MakeInterface, *ssa.Phi:
 					handed = true
 				}
@@ -463,6 +469,11 @@ func (b *xbuilder) load(u *ssa.UnOp, sub func(ssa.Value) *X) *X {
 				x := sub(stores[0].Val)
 				y := *x
 				return &y
+			}
+			if !handed && len(stores) >= 1 {
+				if m := b.mergedFieldStores(al, fa.Field, stores, u, sub); m != nil {
+					return m
+				}
 			}
 		}
 	}
@@ -629,6 +640,9 @@ func Same(a, b *X) bool {
 	a, b = strip(a), strip(b)
 	if a == nil || b == nil {
 		return false
+	}
+	if a == b {
+		return true
 	}
 	if a.V != nil && a.V == b.V {
 		return true
@@ -1004,4 +1018,112 @@ func valueMayWriteField(v ssa.Value, field int, depth int) bool {
 		}
 	}
 	return false
+}
+
+func canonFieldName(al *ssa.Alloc, field int) string {
+	if st, ok := deref(al.Type()).Underlying().(*types.Struct); ok && field < st.NumFields() {
+		return canonField(st.Field(field))
+	}
+	return "?"
+}
+
+// reachingFieldStores: the stores (to one field of a local struct) that can be
+// the last one executed before load u, in source order; zero reports that u
+// can also be reached without any of them.
+func reachingFieldStores(stores []*ssa.Store, u ssa.Instruction) (reach []*ssa.Store, zero bool) {
+	isStore := map[ssa.Instruction]*ssa.Store{}
+	for _, st := range stores {
+		isStore[st] = st
+	}
+	lastIn := func(b *ssa.BasicBlock, before ssa.Instruction) *ssa.Store {
+		var last *ssa.Store
+		for _, in := range b.Instrs {
+			if in == before {
+				break
+			}
+			if st, ok := isStore[in]; ok {
+				last = st
+			}
+		}
+		return last
+	}
+	got := map[*ssa.Store]bool{}
+	seen := map[*ssa.BasicBlock]bool{}
+	var back func(b *ssa.BasicBlock)
+	back = func(b *ssa.BasicBlock) {
+		if seen[b] {
+			return
+		}
+		seen[b] = true
+		if st := lastIn(b, nil); st != nil {
+			got[st] = true
+			return
+		}
+		if len(b.Preds) == 0 {
+			zero = true
+			return
+		}
+		for _, p := range b.Preds {
+			back(p)
+		}
+	}
+	ub := u.Block()
+	if st := lastIn(ub, u); st != nil {
+		return []*ssa.Store{st}, false
+	}
+	if len(ub.Preds) == 0 {
+		return nil, true
+	}
+	for _, p := range ub.Preds {
+		back(p)
+	}
+	for _, st := range stores {
+		if got[st] {
+			reach = append(reach, st)
+		}
+	}
+	sort.Slice(reach, func(i, j int) bool { return reach[i].Pos() < reach[j].Pos() })
+	return reach, zero
+}
+
+// mergedFieldStores: several stores to one field of a local struct (a literal's
+// initialiser and a later assignment on some path): the stores that reach
+// instruction at; one → its value, several → their merge — the same node for
+// the same set of stores, so that two reads at points the same stores reach
+// are recognised as the same value. nil when at can be reached without any.
+func (b *xbuilder) mergedFieldStores(al *ssa.Alloc, field int, stores []*ssa.Store, at ssa.Instruction, sub func(ssa.Value) *X) *X {
+	reach, zero := reachingFieldStores(stores, at)
+	if len(reach) == 0 {
+		return nil
+	}
+	for _, st := range stores {
+		if MayFollow(at, st) {
+			return nil // a field updated round a loop: left as a field read
+		}
+	}
+	if len(reach) == 1 && !zero {
+		x := sub(reach[0].Val)
+		y := *x
+		return &y
+	}
+	key := fmt.Sprintf("%p/%d/%v", al, field, zero)
+	for _, st := range reach {
+		key += fmt.Sprintf("/%d", st.Pos())
+	}
+	if b.fieldMerge == nil {
+		b.fieldMerge = map[string]*X{}
+	}
+	if m, ok := b.fieldMerge[key]; ok {
+		return m
+	}
+	m := &X{Op: "phi", Name: "field:" + canonFieldName(al, field)}
+	if zero {
+		// also reachable with the field never assigned: its zero value
+		m.Args = append(m.Args, &X{Op: "const", Name: "zero:" + b.short(reach[0].Val.Type().String())})
+	}
+	for _, st := range reach {
+		m.Args = append(m.Args, sub(st.Val))
+	}
+	b.fieldMerge[key] = m
+	return m
 }
